@@ -19,7 +19,8 @@ import (
 // Primary implements the primary node functionality for WAL replication.
 // It observes WAL entries and serves them to replica nodes.
 type Primary struct {
-	wal               *wal.WAL                   // Reference to the WAL
+	wal               *wal.WAL                   // The engine's current WAL (replaced on log rotation, see OnWALRotated)
+	walMu             sync.RWMutex               // Protects the wal pointer only; never held while calling out
 	batcher           *WALBatcher                // Batches WAL entries for efficient transmission
 	compressor        *CompressionManager        // Handles compression/decompression
 	sessions          map[string]*ReplicaSession // Active replica sessions
@@ -188,6 +189,21 @@ func NewPrimary(w *wal.WAL, config *PrimaryConfig) (*Primary, error) {
 	return primary, nil
 }
 
+// currentWAL returns the WAL object the engine writes to now
+func (p *Primary) currentWAL() *wal.WAL {
+	p.walMu.RLock()
+	defer p.walMu.RUnlock()
+	return p.wal
+}
+
+// OnWALRotated implements wal.WALRotationObserver: the storage manager replaced its WAL object
+// (every flush does); entries are fetched from, and sequence numbers read off, the new one
+func (p *Primary) OnWALRotated(next *wal.WAL) {
+	p.walMu.Lock()
+	p.wal = next
+	p.walMu.Unlock()
+}
+
 // OnWALEntryWritten implements WALEntryObserver.OnWALEntryWritten
 func (p *Primary) OnWALEntryWritten(entry *wal.Entry) {
 	log.Info("WAL entry written: seq=%d, type=%d, key=%s",
@@ -352,7 +368,7 @@ func (p *Primary) StreamWAL(
 			return status.Error(codes.ResourceExhausted, "replica does not keep up with the stream")
 		case <-ticker.C:
 			// Check if we have new entries to send
-			currentSeq := p.wal.GetNextSequence() - 1
+			currentSeq := p.currentWAL().GetNextSequence() - 1
 			if currentSeq > session.LastAckSequence {
 				log.Info("Checking for new entries: currentSeq=%d > lastAck=%d",
 					currentSeq, session.LastAckSequence)
@@ -698,7 +714,8 @@ func (p *Primary) getWALEntriesFromSequence(fromSequence uint64) ([]*wal.Entry, 
 	// NewPrimary): a client write holds the WAL mutex while it takes p.mu
 	// Get current sequence in WAL (next sequence - 1)
 	// We subtract 1 to get the current highest assigned sequence
-	currentSeq := p.wal.GetNextSequence() - 1
+	w := p.currentWAL()
+	currentSeq := w.GetNextSequence() - 1
 
 	log.Info("GetWALEntriesFromSequence called with fromSequence=%d, currentSeq=%d",
 		fromSequence, currentSeq)
@@ -711,7 +728,7 @@ func (p *Primary) getWALEntriesFromSequence(fromSequence uint64) ([]*wal.Entry, 
 
 	// Use the WAL's built-in method to get entries starting from the specified sequence
 	// This preserves the original keys and values exactly as they were written
-	allEntries, err := p.wal.GetEntriesFrom(fromSequence)
+	allEntries, err := w.GetEntriesFrom(fromSequence)
 	if err != nil {
 		log.Error("Failed to get WAL entries: %v", err)
 		return nil, fmt.Errorf("failed to get WAL entries: %w", err)
@@ -889,7 +906,7 @@ func (p *Primary) maybeManageWALRetention() {
 		MinSequenceKeep: minAcknowledgedSeq,
 	}
 
-	filesDeleted, err := p.wal.ManageRetention(config)
+	filesDeleted, err := p.currentWAL().ManageRetention(config)
 	if err != nil {
 		log.Error("Failed to manage WAL retention: %v", err)
 		return
@@ -911,7 +928,7 @@ func (p *Primary) Close() error {
 	}
 
 	// Unregister from WAL
-	p.wal.UnregisterObserver("primary_replication")
+	p.currentWAL().UnregisterObserver("primary_replication")
 
 	// Close all replica sessions
 	p.mu.Lock()
